@@ -204,4 +204,288 @@ theorem kernel_try_from_f32 (prof : Profile) (bits : Nat) (hb : bits < 429496729
     Gen.K.try_from_f32 prof bits = Kernels.floatResult <$> tryFromFloat prof Spec.FloatFmt.f32 bits :=
   Kernels.try_from_f32_eq prof bits hb
 
+/-! ### algebraic laws
+Sign symmetry of the conversion (flipping the sign bit of the pattern negates the coefficient and keeps the digits), as a corollary
+of `try_from_float_spec`: the spec rounds half-even, which is symmetric, and removes the same trailing zeros.  The one asymmetry is
+the asymmetry of `i128`: `2^127` overflows while `-2^127` is `Decimal::MIN`. -/
+
+/-- the pattern with the sign bit flipped -/
+def flipSign (f : Spec.FloatFmt) (bits : Nat) : Nat := bits ^^^ 2 ^ (f.bits - 1)
+
+theorem flipSign_eq (f : Spec.FloatFmt) (bits : Nat) (hb : bits < 2 ^ f.bits) :
+    flipSign f bits = if bits < 2 ^ (f.bits - 1) then bits + 2 ^ (f.bits - 1) else bits - 2 ^ (f.bits - 1) := by
+  have hS : 2 ^ f.bits = 2 * 2 ^ (f.bits - 1) := by
+    have : f.bits = (f.bits - 1) + 1 := by unfold Spec.FloatFmt.bits; omega
+    rw [this, Nat.pow_succ]; simp; omega
+  unfold flipSign
+  generalize f.bits - 1 = k at *
+  have key : ∀ r, r < 2 ^ k → r ^^^ 2 ^ k = r + 2 ^ k := by
+    intro r hr
+    have hbit : r.testBit k = false := Nat.testBit_lt_two_pow hr
+    have e : r ^^^ 2 ^ k = 2 ^ k ||| r := by
+      apply Nat.eq_of_testBit_eq
+      intro i
+      simp only [Nat.testBit_or, Nat.testBit_xor, Nat.testBit_two_pow]
+      by_cases hi : k = i
+      · subst hi; simp [hbit]
+      · simp [hi]
+    have h1 := Nat.two_pow_add_eq_or_of_lt hr 1
+    rw [Nat.mul_one] at h1
+    rw [e, ← h1]; omega
+  split
+  · rename_i h; exact key bits h
+  · rename_i h
+    have h2 : bits - 2 ^ k < 2 ^ k := by omega
+    have e : bits = (bits - 2 ^ k) + 2 ^ k := by omega
+    conv => lhs; rw [e, ← key _ h2]
+    rw [Nat.xor_assoc, Nat.xor_self, Nat.xor_zero]
+
+theorem flip_fields (f : Spec.FloatFmt) (hf : f = Spec.FloatFmt.f64 ∨ f = Spec.FloatFmt.f32) (bits : Nat)
+    (hb : bits < 2 ^ f.bits) :
+    flipSign f bits < 2 ^ f.bits ∧
+    (flipSign f bits >>> f.fracBits) % 2 ^ f.expBits = (bits >>> f.fracBits) % 2 ^ f.expBits ∧
+    flipSign f bits % 2 ^ f.fracBits = bits % 2 ^ f.fracBits ∧
+    flipSign f bits % 2 ^ (f.bits - 1) = bits % 2 ^ (f.bits - 1) ∧
+    ((flipSign f bits >>> (f.bits - 1)) % 2 = 1 ↔ ¬ (bits >>> (f.bits - 1)) % 2 = 1) := by
+  rw [flipSign_eq f bits hb]
+  rcases hf with rfl | rfl
+  · simp only [Spec.FloatFmt.f64, Spec.FloatFmt.bits, Nat.shiftRight_eq_div_pow] at hb ⊢
+    norm_num at hb ⊢
+    split <;> omega
+  · simp only [Spec.FloatFmt.f32, Spec.FloatFmt.bits, Nat.shiftRight_eq_div_pow] at hb ⊢
+    norm_num at hb ⊢
+    split <;> omega
+
+theorem normalizeSpec_neg : ∀ (fuel : Nat) (c : Int) (p : Nat),
+    Spec.normalizeSpec fuel (-c) p = (-(Spec.normalizeSpec fuel c p).1, (Spec.normalizeSpec fuel c p).2)
+  | 0, c, p => by simp [Spec.normalizeSpec]
+  | fuel + 1, c, p => by
+    unfold Spec.normalizeSpec
+    by_cases hc : c = 0
+    · simp [hc]
+    · have hc' : -c ≠ 0 := by omega
+      simp only [hc, hc', if_false]
+      by_cases hz : p > 0 ∧ c % 10 = 0
+      · have hz' : p > 0 ∧ (-c) % 10 = 0 := ⟨hz.1, by omega⟩
+        have e : (-c) / 10 = -(c / 10) := by omega
+        rw [if_pos hz, if_pos hz', e]
+        exact normalizeSpec_neg fuel (c / 10) (p - 1)
+      · have hz' : ¬ (p > 0 ∧ (-c) % 10 = 0) := by
+          intro h; exact hz ⟨h.1, by omega⟩
+        rw [if_neg hz, if_neg hz']
+
+/-- the spec of a finite pattern, with its `let`s removed -/
+theorem fromFloat_finite (f : Spec.FloatFmt) (bits : Nat)
+    (hfin : (bits >>> f.fracBits) % 2 ^ f.expBits ≠ 2 ^ f.expBits - 1) :
+    Spec.fromFloat f bits =
+      (if (Spec.normalizeSpec 19 (Spec.specRound .heven (exactNum f bits * 10 ^ 18) (exactDen f bits)) 18).1 = -(2 : Int) ^ 127 then
+        .valOrOvf (Spec.normalizeSpec 19 (Spec.specRound .heven (exactNum f bits * 10 ^ 18) (exactDen f bits)) 18).1
+          (Spec.normalizeSpec 19 (Spec.specRound .heven (exactNum f bits * 10 ^ 18) (exactDen f bits)) 18).2
+      else if Spec.fits (Spec.normalizeSpec 19 (Spec.specRound .heven (exactNum f bits * 10 ^ 18) (exactDen f bits)) 18).1 then
+        .val (Spec.normalizeSpec 19 (Spec.specRound .heven (exactNum f bits * 10 ^ 18) (exactDen f bits)) 18).1
+          (Spec.normalizeSpec 19 (Spec.specRound .heven (exactNum f bits * 10 ^ 18) (exactDen f bits)) 18).2
+      else .overflow) := by
+  unfold Spec.fromFloat exactNum exactDen
+  simp only [hfin, if_false]
+
+/-- flipping the sign bit negates the exact value and keeps the class of the pattern -/
+theorem flip_exact (f : Spec.FloatFmt) (hf : f = Spec.FloatFmt.f64 ∨ f = Spec.FloatFmt.f32) (bits : Nat)
+    (hb : bits < 2 ^ f.bits) :
+    exactNum f (flipSign f bits) = -exactNum f bits ∧ exactDen f (flipSign f bits) = exactDen f bits := by
+  obtain ⟨_, _, _, h4, h5⟩ := flip_fields f hf bits hb
+  unfold exactNum exactDen
+  rw [h4]
+  refine ⟨?_, rfl⟩
+  by_cases hs : (bits >>> (f.bits - 1)) % 2 = 1
+  · rw [if_pos hs, if_neg (fun h => (h5.1 h) hs)]; omega
+  · rw [if_neg hs, if_pos (h5.2 hs)]
+
+/-- the non-finite patterns: the spec does not look at the sign -/
+theorem fromFloat_flip_nonfinite (f : Spec.FloatFmt) (hf : f = Spec.FloatFmt.f64 ∨ f = Spec.FloatFmt.f32) (bits : Nat)
+    (hb : bits < 2 ^ f.bits) (hinf : (bits >>> f.fracBits) % 2 ^ f.expBits = 2 ^ f.expBits - 1) :
+    Spec.fromFloat f (flipSign f bits) = Spec.fromFloat f bits ∧
+    (Spec.fromFloat f bits = .infinite ∨ Spec.fromFloat f bits = .nan) := by
+  obtain ⟨_, h2, h3, _, _⟩ := flip_fields f hf bits hb
+  unfold Spec.fromFloat
+  simp only [h2, h3, hinf, if_true]
+  refine ⟨trivial, ?_⟩
+  split <;> simp
+
+/-- what the spec prescribes for a normalised rounded coefficient -/
+def expOf (c : Int) (k : Nat) : Spec.FromFloatExp :=
+  if c = I128_MIN then .valOrOvf c k else if fitsI128 c = true then .val c k else .overflow
+
+/-- the spec of a finite pattern and of the pattern with the sign bit flipped: same digits, opposite coefficients -/
+theorem fromFloat_flip_finite (f : Spec.FloatFmt) (hf : f = Spec.FloatFmt.f64 ∨ f = Spec.FloatFmt.f32) (bits : Nat)
+    (hb : bits < 2 ^ f.bits) (hfin : (bits >>> f.fracBits) % 2 ^ f.expBits ≠ 2 ^ f.expBits - 1) :
+    ∃ (c : Int) (k : Nat), Spec.fromFloat f bits = expOf c k ∧ Spec.fromFloat f (flipSign f bits) = expOf (-c) k := by
+  have hfin' : (flipSign f bits >>> f.fracBits) % 2 ^ f.expBits ≠ 2 ^ f.expBits - 1 := by
+    rw [(flip_fields f hf bits hb).2.1]; exact hfin
+  obtain ⟨e1, e2⟩ := flip_exact f hf bits hb
+  have h127 : -(2 : Int) ^ 127 = I128_MIN := by decide
+  refine ⟨(Spec.normalizeSpec 19 (Spec.specRound .heven (exactNum f bits * 10 ^ 18) (exactDen f bits)) 18).1,
+    (Spec.normalizeSpec 19 (Spec.specRound .heven (exactNum f bits * 10 ^ 18) (exactDen f bits)) 18).2, ?_, ?_⟩
+  · rw [fromFloat_finite f bits hfin]
+    unfold expOf
+    simp only [h127, spec_fits_eq]
+  · rw [fromFloat_finite f _ hfin', e1, e2, Int.neg_mul, heven_neg _ _ (exactDen_pos f bits), normalizeSpec_neg]
+    unfold expOf
+    simp only [h127, spec_fits_eq]
+
+theorem out_val_inv {r : Outcome (Except FloatErr Dec)} {c : Int} {k : Nat} (h : fromFloatOut r = some (.val c k)) :
+    r = .ok (.ok ⟨c, k⟩) := by
+  unfold fromFloatOut at h
+  split at h <;> simp at h
+  rename_i d
+  obtain ⟨h1, h2⟩ := h
+  cases d; simp only at h1 h2; rw [h1, h2]
+
+theorem out_err_inv {r : Outcome (Except FloatErr Dec)} :
+    (fromFloatOut r = some .infinite → r = .ok (.error .infinite)) ∧ (fromFloatOut r = some .nan → r = .ok (.error .nan)) ∧
+    (fromFloatOut r = some .overflow → r = .ok (.error .overflow)) := by
+  unfold fromFloatOut
+  refine ⟨?_, ?_, ?_⟩ <;> intro h <;> split at h <;> simp at h <;> rfl
+
+/-- sign symmetry, successful conversions: flipping the sign bit of a pattern that converts to `d` gives the Decimal with the
+    opposite coefficient and the same number of fractional digits — in both directions (the flip is an involution); the only
+    excluded result is `i128::MIN`, whose opposite is not an `i128` -/
+theorem try_from_float_flip_ok (prof : Profile) (f : Spec.FloatFmt) (hf : f = Spec.FloatFmt.f64 ∨ f = Spec.FloatFmt.f32)
+    (bits : Nat) (hb : bits < 2 ^ f.bits) (d : Dec) (h : tryFromFloat prof f bits = .ok (.ok d)) (hmin : d.coeff ≠ I128_MIN) :
+    tryFromFloat prof f (flipSign f bits) = .ok (.ok ⟨-d.coeff, d.nfrac⟩) := by
+  have hs := try_from_float_spec prof f hf bits hb
+  have hs' := try_from_float_spec prof f hf _ (flip_fields f hf bits hb).1
+  rw [h] at hs
+  by_cases hfin : (bits >>> f.fracBits) % 2 ^ f.expBits = 2 ^ f.expBits - 1
+  · rcases (fromFloat_flip_nonfinite f hf bits hb hfin).2 with e | e <;> rw [e] at hs <;>
+      simp [fromFloatAllowed, fromFloatOut] at hs
+  · obtain ⟨c, k, e1, e2⟩ := fromFloat_flip_finite f hf bits hb hfin
+    rw [e1] at hs
+    rw [e2] at hs'
+    unfold expOf at hs hs'
+    by_cases hc : c = I128_MIN
+    · rw [if_pos hc] at hs
+      simp [fromFloatAllowed, fromFloatOut] at hs
+      exact absurd (hs.1.trans hc) hmin
+    · rw [if_neg hc] at hs
+      by_cases hfit : fitsI128 c = true
+      · rw [if_pos hfit] at hs
+        simp [fromFloatAllowed, fromFloatOut] at hs
+        rw [fitsI128_iff] at hfit
+        have hc' : ¬ (-c = I128_MIN) := by unfold I128_MIN I128_MAX at *; omega
+        have hfit' : fitsI128 (-c) = true := by rw [fitsI128_iff]; unfold I128_MIN I128_MAX at *; omega
+        rw [if_neg hc', if_pos hfit'] at hs'
+        rw [hs.1, hs.2]
+        exact out_val_inv hs'
+      · rw [if_neg hfit] at hs
+        simp [fromFloatAllowed, fromFloatOut] at hs
+
+/-- sign symmetry, `InfiniteValue` / `NotANumber`: the error kind does not depend on the sign bit -/
+theorem try_from_float_flip_nonfinite (prof : Profile) (f : Spec.FloatFmt) (hf : f = Spec.FloatFmt.f64 ∨ f = Spec.FloatFmt.f32)
+    (bits : Nat) (hb : bits < 2 ^ f.bits) (e : FloatErr) (he : e ≠ .overflow) (h : tryFromFloat prof f bits = .ok (.error e)) :
+    tryFromFloat prof f (flipSign f bits) = .ok (.error e) := by
+  have hs := try_from_float_spec prof f hf bits hb
+  have hs' := try_from_float_spec prof f hf _ (flip_fields f hf bits hb).1
+  rw [h] at hs
+  by_cases hfin : (bits >>> f.fracBits) % 2 ^ f.expBits = 2 ^ f.expBits - 1
+  · obtain ⟨e1, e2⟩ := fromFloat_flip_nonfinite f hf bits hb hfin
+    rw [e1] at hs'
+    rcases e2 with e2 | e2 <;> rw [e2] at hs hs' <;> cases e <;>
+      simp [fromFloatAllowed, fromFloatOut] at hs hs' he
+    · exact out_err_inv.1 hs'
+    · exact out_err_inv.2.1 hs'
+  · obtain ⟨c, k, e1, _⟩ := fromFloat_flip_finite f hf bits hb hfin
+    rw [e1] at hs
+    unfold expOf at hs
+    exfalso
+    split at hs
+    · cases e <;> simp [fromFloatAllowed, fromFloatOut] at hs he
+    · split at hs <;> cases e <;> simp [fromFloatAllowed, fromFloatOut] at hs he
+
+/-- sign symmetry, `InternalOverflow`: the flipped pattern overflows too — except that the opposite of an overflowing `2^127` is
+    `i128::MIN`, which the conversion does return (see the example below: the law "the error kind is unchanged" is false there) -/
+theorem try_from_float_flip_overflow (prof : Profile) (f : Spec.FloatFmt) (hf : f = Spec.FloatFmt.f64 ∨ f = Spec.FloatFmt.f32)
+    (bits : Nat) (hb : bits < 2 ^ f.bits) (h : tryFromFloat prof f bits = .ok (.error .overflow)) :
+    tryFromFloat prof f (flipSign f bits) = .ok (.error .overflow) ∨
+    ∃ k, tryFromFloat prof f (flipSign f bits) = .ok (.ok ⟨I128_MIN, k⟩) := by
+  have hs := try_from_float_spec prof f hf bits hb
+  have hs' := try_from_float_spec prof f hf _ (flip_fields f hf bits hb).1
+  rw [h] at hs
+  by_cases hfin : (bits >>> f.fracBits) % 2 ^ f.expBits = 2 ^ f.expBits - 1
+  · rcases (fromFloat_flip_nonfinite f hf bits hb hfin).2 with e | e <;> rw [e] at hs <;>
+      simp [fromFloatAllowed, fromFloatOut] at hs
+  · obtain ⟨c, k, e1, e2⟩ := fromFloat_flip_finite f hf bits hb hfin
+    rw [e1] at hs
+    rw [e2] at hs'
+    unfold expOf at hs hs'
+    have hov : ∀ c', c' ≠ I128_MIN → fitsI128 c' ≠ true →
+        fromFloatAllowed (if c' = I128_MIN then .valOrOvf c' k else if fitsI128 c' = true then .val c' k else .overflow)
+          (fromFloatOut (tryFromFloat prof f (flipSign f bits))) → tryFromFloat prof f (flipSign f bits) = .ok (.error .overflow) := by
+      intro c' h1 h2 h3
+      rw [if_neg h1, if_neg h2] at h3
+      exact out_err_inv.2.2 h3
+    by_cases hc : c = I128_MIN
+    · left
+      refine hov (-c) (by rw [hc]; decide) (by rw [hc]; decide) hs'
+    · rw [if_neg hc] at hs
+      by_cases hfit : fitsI128 c = true
+      · rw [if_pos hfit] at hs
+        simp [fromFloatAllowed, fromFloatOut] at hs
+      · by_cases hc' : -c = I128_MIN
+        · rw [if_pos hc'] at hs'
+          rcases hs' with hs' | hs'
+          · right; exact ⟨k, by rw [← hc']; exact out_val_inv hs'⟩
+          · left; exact out_err_inv.2.2 hs'
+        · left
+          refine hov (-c) hc' (fun hh => hfit ?_) hs'
+          rw [fitsI128_iff] at hh ⊢
+          unfold I128_MIN I128_MAX at *; omega
+
+/-- the flip is an involution on the patterns of the format -/
+theorem flipSign_flipSign (f : Spec.FloatFmt) (bits : Nat) : flipSign f (flipSign f bits) = bits := by
+  unfold flipSign
+  rw [Nat.xor_assoc, Nat.xor_self, Nat.xor_zero]
+
+-- 1.5 and -1.5; 0.1f32 and -0.1f32; +inf and -inf
+example : tryFromFloat Profile.dev .f64 0x3FF8000000000000 = .ok (.ok ⟨15, 1⟩) ∧
+    tryFromFloat Profile.dev .f64 (flipSign .f64 0x3FF8000000000000) = .ok (.ok ⟨-15, 1⟩) ∧
+    flipSign .f64 0x3FF8000000000000 = 0xBFF8000000000000 ∧
+    tryFromFloat Profile.dev .f32 (flipSign .f32 (255 * 2 ^ 23)) = .ok (.error .infinite) := by decide
+-- COUNTER-EXAMPLE to "the error kind is unchanged": `2^127` overflows, `-2^127` is `Decimal::MIN` (both formats, both profiles)
+example : tryFromFloat Profile.dev .f64 (1150 * 2 ^ 52) = .ok (.error .overflow) ∧
+    tryFromFloat Profile.dev .f64 (flipSign .f64 (1150 * 2 ^ 52)) = .ok (.ok ⟨I128_MIN, 0⟩) ∧
+    tryFromFloat Profile.release .f32 (254 * 2 ^ 23) = .ok (.error .overflow) ∧
+    tryFromFloat Profile.release .f32 (flipSign .f32 (254 * 2 ^ 23)) = .ok (.ok ⟨I128_MIN, 0⟩) := by decide
+
+/-- a float with an integral value converts to exactly that integer with NO fractional digits (`from_float_integral` gives the
+    value; the absence of trailing zeros gives the representation) -/
+theorem from_float_integral_exact (prof : Profile) (f : Spec.FloatFmt) (hf : f = Spec.FloatFmt.f64 ∨ f = Spec.FloatFmt.f32)
+    (bits : Nat) (hb : bits < 2 ^ f.bits) (hfin : (bits >>> f.fracBits) % 2 ^ f.expBits ≠ 2 ^ f.expBits - 1)
+    (hint : exactDen f bits = 1) (d : Dec) (h : tryFromFloat prof f bits = .ok (.ok d)) :
+    d = ⟨exactNum f bits, 0⟩ := by
+  have hv := from_float_integral prof f hf bits hb hfin hint d h
+  obtain ⟨hk, _, _, hz⟩ := from_float_nearest prof f hf bits hb hfin d h
+  obtain ⟨c, k⟩ := d
+  simp only at hv hk hz
+  have hk0 : k = 0 := by
+    apply Classical.byContradiction
+    intro hk0
+    have hsplit : (10 : Int) ^ 18 = 10 ^ (k - 1) * 10 * 10 ^ (18 - k) := by
+      rw [← Int.pow_succ, ← Int.pow_add]; congr 1; omega
+    rw [hsplit, ← Int.mul_assoc] at hv
+    have hc := Int.eq_of_mul_eq_mul_right (Int.ne_of_gt (Int.pow_pos (by decide))) hv
+    apply hz (by omega)
+    rw [hc, ← Int.mul_assoc]; exact Int.mul_emod_left _ _
+  subst hk0
+  simp only [Nat.sub_zero] at hv
+  rw [Int.eq_of_mul_eq_mul_right (Int.ne_of_gt (Int.pow_pos (by decide))) hv]
+
+-- the powers of two 2^0, 2^52, 2^53 (the limit of the contiguous integers of an f64), 2^53 + 2, -2^53 and 2^126
+example : tryFromFloat Profile.dev .f64 (1023 * 2 ^ 52) = .ok (.ok ⟨1, 0⟩) ∧
+    tryFromFloat Profile.dev .f64 (1075 * 2 ^ 52) = .ok (.ok ⟨2 ^ 52, 0⟩) ∧
+    tryFromFloat Profile.dev .f64 (1076 * 2 ^ 52) = .ok (.ok ⟨2 ^ 53, 0⟩) ∧
+    tryFromFloat Profile.dev .f64 (1076 * 2 ^ 52 + 1) = .ok (.ok ⟨2 ^ 53 + 2, 0⟩) ∧
+    tryFromFloat Profile.release .f64 (flipSign .f64 (1076 * 2 ^ 52)) = .ok (.ok ⟨-2 ^ 53, 0⟩) ∧
+    tryFromFloat Profile.release .f64 (1149 * 2 ^ 52) = .ok (.ok ⟨2 ^ 126, 0⟩) ∧
+    exactDen .f64 (1076 * 2 ^ 52) = 1 ∧ exactNum .f64 (1076 * 2 ^ 52) = 2 ^ 53 := by decide
+
 end Fpdec.Props.C13
